@@ -132,6 +132,12 @@ impl ResponseCache {
             .clamp(positive_min_ttl, positive_max_ttl)
     }
 
+    /// Verification hook (off by default): public access to `clear`.
+    #[cfg(hickory_dns_verif)]
+    pub fn verif_clear(&self) {
+        self.clear()
+    }
+
     pub(crate) fn clear(&self) {
         self.cache.invalidate_all();
     }
